@@ -91,8 +91,10 @@ theorem inv2_step {s s' : State} (h : Inv s) (h2 : Inv2 s) (ev : Event) (hon : H
   | age t =>
     simp only [step] at hs
     split at hs
-    · simp only [Option.some.injEq] at hs; subst hs
-      exact inv2_pc_only h2 t _ (by simp) (by simp) (by simp)
+    · split at hs
+      · simp only [Option.some.injEq] at hs; subst hs
+        exact inv2_pc_only h2 t _ (by simp) (by simp) (by simp)
+      · simp at hs
     · simp at hs
   | resume t =>
     simp only [step] at hs
